@@ -188,81 +188,7 @@ func runC33(c *Ctx) {
 	}
 
 	// netutil
-	if cs := c.MustFunc(pkgNetutil + ":(TrustedNetworks).ContainsStr"); cs != nil {
-		nC := 0
-		for _, ci := range callsIn(cs, func(nm string, cc *ssa.CallCommon) bool { return strings.HasSuffix(nm, "netip.Prefix).Contains") }) {
-			nC++
-			a := ci.Common().Args[1]
-			// a = WithZone(Unmap(ParseAddr(host)))
-			chain := []string{}
-			cur := strip(a)
-			for i := 0; i < 6; i++ {
-				cl := callValue(cur)
-				if cl == nil {
-					break
-				}
-				chain = append(chain, methodName(&cl.Call))
-				if len(cl.Call.Args) == 0 {
-					break
-				}
-				cur = strip(cl.Call.Args[0])
-			}
-			has := func(s string) bool {
-				for _, x := range chain {
-					if x == s {
-						return true
-					}
-				}
-				return false
-			}
-			zoneEmpty := false
-			if cl := callValue(strip(a)); cl != nil && methodName(&cl.Call) == "WithZone" {
-				if s, ok := constString(cl.Call.Args[1]); ok && s == "" {
-					zoneEmpty = true
-				}
-			}
-			c.Check("contains-normalised", "Unmap+WithZone(\"\")@ContainsStr", ci, has("Unmap") && has("WithZone") && has("ParseAddr") && zoneEmpty,
-				fmt.Sprintf("the peer address must be unmapped (::ffff:a.b.c.d → a.b.c.d) and zone-stripped before the CIDR test; call chain: %v", chain))
-			g, ns := MustCross(ci, func(e Edge, cond ssa.Value, truth bool) bool { return errNilEdge(cond, truth, callSuffix("netip.ParseAddr")) })
-			c.Check("contains-parse-failure", "Contains-after-parse-ok@ContainsStr", ci, g && ns > 0, "membership is tested although the host did not parse")
-		}
-		if nC == 0 {
-			c.Undecided("contains-normalised", "ContainsStr", "no Prefix.Contains call")
-		}
-		// returns: true only right after a Contains hit; parse failure → false
-		for _, r := range returnsOf(cs) {
-			if len(r.Results) != 1 {
-				continue
-			}
-			v, isK := constBool(r.Results[0])
-			if !isK {
-				c.Check("contains-parse-failure", "constant-returns@ContainsStr", r, false, "ContainsStr must return literal true/false")
-				continue
-			}
-			if v {
-				g, ns := MustCross(r, func(e Edge, cond ssa.Value, truth bool) bool {
-					return boolCallEdge(cond, truth, true, callSuffix("netip.Prefix).Contains"))
-				})
-				c.Check("contains-parse-failure", "true-only-on-hit@ContainsStr", r, g && ns > 0, "ContainsStr returns true without a matching prefix")
-			}
-		}
-		// the parse-failure edge returns false
-		for _, e := range IfEdges(cs) {
-			cond, truth := e.Cond()
-			if !errNonNilEdge(cond, truth, callSuffix("netip.ParseAddr")) {
-				continue
-			}
-			ok := false
-			for _, in := range e.To().Instrs {
-				if r, isR := in.(*ssa.Return); isR {
-					if v, isK := constBool(r.Results[0]); isK && !v {
-						ok = true
-					}
-				}
-			}
-			c.Check("contains-parse-failure", "parse-error→false@ContainsStr", e.To().Instrs[0], ok, "an unparsable peer address must never be trusted")
-		}
-	}
+	checkTrustedMembership(c)
 	if ct := c.MustFunc(pkgNetutil + ":(TrustedNetworks).Contains"); ct != nil {
 		ok := false
 		for _, e := range IfEdges(ct) {
